@@ -4,7 +4,15 @@ import (
 	"fmt"
 	"strings"
 
+	"verif/harness/core"
+
 	"github.com/Chocapikk/pgread/pgdump"
+)
+
+var (
+	hx    = core.Hx
+	b2s   = core.B2s
+	unhex = core.Unhex
 )
 
 func optBytes(b []byte) string {
@@ -31,11 +39,11 @@ func showEntries(es []pgdump.TupleEntry) string {
 
 func init() {
 	// heapscan: args = visibleOnly, file
-	register("heapscan", func(args []string) string {
+	core.Register("heapscan", func(args []string) string {
 		return showEntries(pgdump.ReadTuples(unhex(args[1]), args[0] == "1"))
 	})
 	// infomask: one page; classification string of all tuples | infomasks of the visible ones
-	register("infomask", func(args []string) string {
+	core.Register("infomask", func(args []string) string {
 		data := unhex(args[0])
 		var cls strings.Builder
 		for _, e := range pgdump.ReadTuples(data, false) {
